@@ -78,6 +78,14 @@ def raw_line(n):
     return sp[0] if sp else None
 
 
+def order_key(n):
+    """source order of two nodes of one function: position of the node (for the statements of an expanded helper: of the call
+    site), then the position it had inside the helper it came from"""
+    sp = n.get("sp") or n.get("span") or [0, 0]
+    osp = n.get("osp") or [0, 0]
+    return (sp[0], sp[1], osp[0], osp[1])
+
+
 def strip(n):
     """Remove wrappers that do not change the value."""
     while isinstance(n, dict):
